@@ -3,6 +3,7 @@
    the theorems below are the part of the argument that lives in the slot allocator, for EVERY failure pattern. *)
 From Coq Require Import NArith List Bool.
 From AJ Require Import Model.Base Model.Pool Proofs.PoolProofs Model.Collection Proofs.CollProofs.
+From AJ Require Import Model.CopyBudget Proofs.CopyBudgetProofs.
 Local Open Scope N_scope.
 
 (* whatever the allocator answers, at whatever calls, the allocator's invariant holds: ids valid, live slots
@@ -64,3 +65,44 @@ Example C05_example :   (* the pool's own allocation fails, then succeeds: ids r
   let g := {| id_bits := 8; pool_cap := 4; inline_pools := 1 |} in
   snd (prun g [PAlloc true false; PAlloc true true; PAlloc false true; PAlloc true true]) = [None; Some 4; Some 5; Some 6].
 Proof. vm_compute. reflexivity. Qed.
+
+(* ---- copying a value (dst.set(src), JsonArray::set, JsonObject::set) when only b more slots can be had: Model/CopyBudget.v,
+   compared with the library for every budget (result, destination, slots still free afterwards) ---- *)
+
+(* the copy is complete exactly when the slots suffice, and then it is the source and uses exactly its number of slots *)
+Theorem C05_copy_complete_iff_enough_slots : forall v b,
+  (snd (copy_budget v b) = true <-> (slots v <= b)%nat) /\
+  ((slots v <= b)%nat -> copy_budget v b = (v, (b - slots v)%nat, true)).
+Proof. intros v b. split; [apply copy_complete_iff | apply copy_enough]. Qed.
+Print Assumptions C05_copy_complete_iff_enough_slots.
+
+(* a failed copy leaves a truncation of the source: arrays cut after a whole element, objects cut after a whole member or
+   after a member that itself holds a truncation — same keys, every member with a value *)
+Theorem C05_failed_copy_leaves_a_truncation : forall v b, trunc (fst (fst (copy_budget v b))) v.
+Proof. exact copy_trunc. Qed.
+Print Assumptions C05_failed_copy_leaves_a_truncation.
+
+(* slots are conserved up to one: what the destination holds plus what is still free is b or b - 1 (the key slot that
+   addMember does not give back), and exactly b when the copy succeeds *)
+Theorem C05_failed_copy_loses_at_most_one_slot : forall v b,
+  let '(p, r, ok) := copy_budget v b in
+  (r + slots p <= b)%nat /\ (b <= r + slots p + 1)%nat /\ (ok = true -> (r + slots p)%nat = b).
+Proof. exact copy_conserve. Qed.
+Print Assumptions C05_failed_copy_loses_at_most_one_slot.
+
+Theorem C05_copy_lost_slot_characterised : forall v b,
+  loses v b <-> b = (snd (fst (copy_budget v b)) + slots (fst (fst (copy_budget v b))) + 1)%nat.
+Proof. exact copy_lost_iff. Qed.
+Print Assumptions C05_copy_lost_slot_characterised.
+
+(* more slots only extend what is copied *)
+Theorem C05_more_slots_only_extend_the_copy : forall v b b', (b <= b')%nat ->
+  trunc (fst (fst (copy_budget v b))) (fst (fst (copy_budget v b'))).
+Proof. exact copy_mono. Qed.
+Print Assumptions C05_more_slots_only_extend_the_copy.
+
+Theorem C05_failed_copy_is_strictly_smaller : forall v b,
+  snd (copy_budget v b) = false ->
+  (slots (fst (fst (copy_budget v b))) < slots v)%nat /\ fst (fst (copy_budget v b)) <> v.
+Proof. exact copy_fail_strict. Qed.
+Print Assumptions C05_failed_copy_is_strictly_smaller.
